@@ -164,7 +164,7 @@ func init() {
 			return []string{"range", "between", "until", "template", "groupBy:string", "groupBy:int", "groupBy:struct", "groupBy:pointer", "groupBy:errors", "len"}
 		},
 		Run:  c19Run,
-		Rule: "range(a,b), between(a,b) for all pairs and until(n) for all n over [-8,8] ∪ {MinInt, MinInt+1, MaxInt-1, MaxInt}: drained under a Next() budget (first 24 values of long intervals), exact values, exhaustion is sticky; the same intervals (small ones) through a template for loop with a running count. groupBy in both shipped implementations (helpers/iterators.GroupBy and plush.GroupByHelper) for every length 0..40 x n in -1..12 x element type {string,int,struct,pointer} x {slice, pointer to slice, array, pointer to array}: n<=0 is an error, otherwise <=n non-empty consecutive groups of xs's element type whose concatenation is xs, all but the last of equal size, and both implementations agree group by group, also while other groupBy iterators are alive and partly read (and nested in a template); non-sequences are errors. len(x) equals Go's len for string/slice/array/map/pointer to one, directly and through a template. Non-trivial: non-empty sequences.",
+		Rule: "range(a,b), between(a,b) for all pairs and until(n) for all n over [-8,8] ∪ {MinInt, MinInt+1, MaxInt-1, MaxInt}: drained under a Next() budget (first 24 values of long intervals), exact values, exhaustion is sticky; the same intervals (small ones) through a template for loop with a running count. groupBy in both shipped implementations (helpers/iterators.GroupBy and plush.GroupByHelper) for every length 0..40 x n in -1..12 x element type {string,int,struct,pointer} x {slice, pointer to slice, array, pointer to array, slice / pointer to slice with spare capacity holding other elements}: n<=0 is an error, otherwise <=n non-empty consecutive groups of xs's element type whose concatenation is xs, all but the last of equal size, and both implementations agree group by group, also while other groupBy iterators are alive and partly read (and nested in a template; a value built from a group with + leaves the later groups and xs as they were); non-sequences are errors. len(x) equals Go's len for string/slice/array/map/pointer to one, directly and through a template. Non-trivial: non-empty sequences.",
 		Bound: func(th bool) string {
 			return "int domain [-8,8] plus 4 extremes (all pairs); lengths 0..40 x n -1..12 x 4 element types x 4 container shapes"
 		},
@@ -288,6 +288,17 @@ func c19Run(t *engine.T, shard string) {
 			}
 			return "template-match", nil
 		})
+		// a value built from a group with + does not disturb the later groups or xs
+		t.Case("template append to each group", true, func() (string, *engine.Fail) {
+			ctx := plush.NewContext()
+			ctx.Set("xs", []interface{}{1, 2, 3, 4, 5})
+			out, err := Render(`<% let a = [1, 2, 3, 4, 5] %><%= for (g) in groupBy(2, a) { %><% let g2 = g + 9 %>(<%= g %>/<%= g2 %>)<% } %>|<%= a %>|<%= for (g) in groupBy(3, xs) { %><% let g2 = g + 9 %>(<%= g %>/<%= g2 %>)<% } %>|<%= xs %>`, ctx)
+			want := "(123/1239)(45/459)|12345|(12/129)(34/349)(5/59)|12345"
+			if err != nil || out != want {
+				return "", engine.Failf("groupBy", "appending to a group: expected %q, got %q / %v", want, out, err)
+			}
+			return "append-to-group", nil
+		})
 		// groupBy through a template
 		for L := 0; L <= 7; L++ {
 			for n := 1; n <= 8; n++ {
@@ -316,12 +327,20 @@ func c19Run(t *engine.T, shard string) {
 		kind := strings.TrimPrefix(shard, "groupBy:")
 		for L := 0; L <= maxLen; L++ {
 			for n := -1; n <= maxN; n++ {
-				for _, shape := range []string{"slice", "ptr-slice", "array", "ptr-array"} {
+				for _, shape := range []string{"slice", "ptr-slice", "array", "ptr-array", "slice-with-spare-capacity", "ptr-slice-with-spare-capacity"} {
 					mk := func() interface{} {
 						sl := c19Slice(kind, L)
+						if strings.HasSuffix(shape, "spare-capacity") {
+							// the first L elements of a longer backing array: what lies beyond len is not part of xs
+							sl = reflect.ValueOf(c19Slice(kind, L+5)).Slice(0, L).Interface()
+						}
 						switch shape {
-						case "slice":
+						case "slice", "slice-with-spare-capacity":
 							return sl
+						case "ptr-slice-with-spare-capacity":
+							p := reflect.New(reflect.TypeOf(sl))
+							p.Elem().Set(reflect.ValueOf(sl))
+							return p.Interface()
 						case "ptr-slice":
 							p := reflect.New(reflect.TypeOf(sl))
 							p.Elem().Set(reflect.ValueOf(sl))
